@@ -845,6 +845,12 @@ func parseSpecText(file, pkgPath, src string, sp *Specs) (err error) {
 			if old, dup := sp.SpecFns[name]; dup {
 				p.fail("spec function %q is already defined (in package %s); names of spec functions, predicates and ghosts are global", name, old.PkgPath)
 			}
+			if old, dup := sp.Preds[name]; dup {
+				p.fail("%q is already defined as a predicate (in package %s)", name, old.PkgPath)
+			}
+			if _, dup := sp.Ghosts[name]; dup {
+				p.fail("%q is already defined as a ghost", name)
+			}
 			sp.SpecFns[name] = f
 		case "ghost":
 			name := p.ident()
@@ -857,6 +863,12 @@ func parseSpecText(file, pkgPath, src string, sp *Specs) (err error) {
 			}
 			if old, dup := sp.Ghosts[name]; dup {
 				p.fail("ghost %q is already defined (in package %s)", name, old.PkgPath)
+			}
+			if _, dup := sp.SpecFns[name]; dup {
+				p.fail("%q is already defined as a spec function", name)
+			}
+			if _, dup := sp.Preds[name]; dup {
+				p.fail("%q is already defined as a predicate", name)
 			}
 			sp.Ghosts[name] = g
 		case "axiom":
